@@ -123,7 +123,9 @@ def tlc(module, cfg, name=None, workers=None, timeout=1800, extra=(),
        Raises Machinery when TLC crashes / is unparsable."""
     name = name or (module + '-' + os.path.splitext(os.path.basename(cfg))[0])
     wd = workdir('tlc-' + name)
-    cmd = ['java', '-XX:+UseParallelGC', '-Xmx12g', '-cp', TLA_CP,
+    jtmp = os.path.join(wd, 'jtmp')          # SANY unpacks library modules into java.io.tmpdir: keep /tmp clean
+    os.makedirs(jtmp, exist_ok=True)
+    cmd = ['java', '-XX:+UseParallelGC', '-Xmx12g', '-Djava.io.tmpdir=' + jtmp, '-cp', TLA_CP,
            'tlc2.TLC', '-workers', str(workers or NCPU), '-metadir',
            os.path.join(wd, 'meta'), '-noGenerateSpecTE', '-config',
            os.path.join(SPEC, cfg)]
@@ -150,6 +152,7 @@ def tlc(module, cfg, name=None, workers=None, timeout=1800, extra=(),
             if must_finish:
                 raise Machinery('TLC timeout on %s/%s' % (module, cfg))
     shutil.rmtree(os.path.join(wd, 'meta'), ignore_errors=True)
+    shutil.rmtree(jtmp, ignore_errors=True)
     res = TLCResult(outp, rc, time.time() - t0)
     out = res.out
     if ('Parsing or semantic analysis failed' in out or
